@@ -256,6 +256,128 @@ Section Loop.
     | r => (OFailed (chan_err r), [], env)
     end.
 
+  (* ---------- eager mode (Workflow): taskManager.wait returns ONE completed task ----------
+     Tasks are executed when submitted (their events are logged then); [es_running] holds the
+     results not yet collected. The schedule is the list of node keys in collection order; when it
+     is exhausted or names a task that is not running the first running task is taken. *)
+  Record estate := { es_cs : CS; es_next : list task; es_gs : GS; es_running : list (N * texec) }.
+
+  Inductive eres :=
+  | EContinue (s : estate) (sched : list N)
+  | EStop (r : sres).       (* Done / Interrupted / Failed (never Continue) *)
+
+  Fixpoint take_key (k : N) (l : list (N * texec)) : option ((N * texec) * list (N * texec)) :=
+    match l with
+    | [] => None
+    | x :: l' => if N.eqb (fst x) k then Some (x, l')
+                 else match take_key k l' with Some (y, r) => Some (y, x :: r) | None => None end
+    end.
+
+  Definition pick (running : list (N * texec)) (sched : list N)
+    : option ((N * texec) * list (N * texec) * list N) :=
+    match running with
+    | [] => None
+    | x :: rest =>
+      match sched with
+      | [] => Some (x, rest, [])
+      | k :: sched' => match take_key k running with
+                       | Some (y, r) => Some (y, r, sched')
+                       | None => Some (x, rest, sched')
+                       end
+      end
+    end.
+
+  (* [v0 = true]: the code before the F-C05c repair (the completed task is resolved a second time,
+     the tasks created from it are dropped, interrupt-before nodes are not reported) *)
+  Definition estep_gen (v0 : bool) (s : estate) (sched : list N) (env : ENV) : eres * list event * ENV :=
+    let '(ts, gs1) := run_pres (es_next s) (es_gs s) in
+    let '(rs, env1) := exec_all ts env in
+    let evs := events_of ts rs in
+    match pick (es_running s ++ rs) sched with
+    | None => (EStop (Failed eNoTasks), evs, env1)
+    | Some (c, rest, sched') =>
+      match first_fail [c] with
+      | Some e => (EStop (Failed e), evs, env1)
+      | None =>
+        if negb (is_nil (subcps [c]) && is_nil (reruns [c])) then
+          (* waitAll, then handleInterruptWithSubGraphAndRerunNodes on everything *)
+          match first_fail rest with
+          | Some e => (EStop (Failed e), evs, env1)
+          | None => (EStop (rerun_interrupt (es_cs s) gs1 (c :: rest) (outs (c :: rest)) [] [] (afters (c :: rest))), evs, env1)
+          end
+        else
+          match calc (es_cs s) (outs [c]) with
+          | Ok (cs2, ready) =>
+            match nlist_get kEnd ready with
+            | Some v => (EStop (Done v), evs, env1)
+            | None =>
+              if is_nil (hits ready) && is_nil (afters [c]) then
+                (EContinue {| es_cs := cs2; es_next := map mk_task ready; es_gs := gs1; es_running := rest |} sched', evs, env1)
+              else
+                match first_fail rest with
+                | Some e => (EStop (Failed e), evs, env1)
+                | None =>
+                  let ha := afters [c] ++ afters rest in
+                  if negb (is_nil (subcps rest) && is_nil (reruns rest)) then
+                    if v0 then (EStop (rerun_interrupt cs2 gs1 (c :: rest) (outs (c :: rest)) [] [] ha), evs, env1)
+                    else (EStop (rerun_interrupt cs2 gs1 rest (outs rest) ready (hits ready) ha), evs, env1)
+                  else
+                    match calc cs2 (outs rest) with
+                    | Ok (cs4, ready2) =>
+                      match nlist_get kEnd ready2 with
+                      | Some v => (EStop (Done v), evs, env1)
+                      | None => (EStop (plain_interrupt cs4 gs1 (ready ++ ready2) (hits ready ++ hits ready2) ha), evs, env1)
+                      end
+                    | r => (EStop (Failed (chan_err r)), evs, env1)
+                    end
+                end
+            end
+          | r => (EStop (Failed (chan_err r)), evs, env1)
+          end
+      end
+    end.
+
+  Definition estep := estep_gen false.
+  Definition estep_v0 := estep_gen true.
+
+  Definition out_of (r : sres) : outcome :=
+    match r with
+    | Done v => ODone v | Interrupted i c => OInterrupted i c | Failed e => OFailed e
+    | Continue _ => OFailed eChan
+    end.
+
+  Fixpoint eiterate (v0 : bool) (fuel : nat) (s : estate) (sched : list N) (env : ENV) (log : list event)
+    : outcome * list event * ENV :=
+    match fuel with
+    | O => (OLimit, log, env)
+    | S f =>
+      match estep_gen v0 s sched env with
+      | (EContinue s' sched', evs, env') => eiterate v0 f s' sched' env' (log ++ evs)
+      | (EStop r, evs, env') => (out_of r, log ++ evs, env')
+      end
+    end.
+
+  Definition to_estate (s : lstate) : estate :=
+    {| es_cs := ls_cs s; es_next := ls_next s; es_gs := ls_gs s; es_running := [] |}.
+
+  Definition eresume (v0 : bool) (fuel : nat) (sm : GS -> GS) (c : checkpoint) (sched : list N) (env : ENV) :=
+    let s := restore c in eiterate v0 fuel (to_estate (with_gs s (sm (ls_gs s)))) sched env [].
+
+  Definition estart (v0 : bool) (fuel : nat) (cs0 : CS) (gs0 : GS) (x : V) (sched : list N) (env : ENV)
+    : outcome * list event * ENV :=
+    match calc cs0 [(kStart, x)] with
+    | Ok (cs1, ready) =>
+      match nlist_get kEnd ready with
+      | Some v => (ODone v, [], env)
+      | None =>
+        match hits ready with
+        | [] => eiterate v0 fuel {| es_cs := cs1; es_next := map mk_task ready; es_gs := gs0; es_running := [] |} sched env []
+        | hb => (out_of (plain_interrupt cs1 gs0 ready hb []), [], env)
+        end
+      end
+    | r => (OFailed (chan_err r), [], env)
+    end.
+
   (* ---------- driving a run through a store: call, and resume while interrupted ---------- *)
   (* [mods k] = the state modifier of the k-th resume call. The store keeps only what [ser]
      produces; [deser] failing is a failed call. *)
